@@ -23,6 +23,7 @@ pub fn def() -> PropDef {
         flavours: &["tokio"],
         outcome: None,
         extra_profiles: &[],
+        adapt: None,
     }
 }
 
@@ -300,8 +301,10 @@ pub fn check(v: &View) -> Vec<Violation> {
             if v.sc.sched.racing_per_mille == 0 && !cen.lib_temporaries_possible && !cen.maybe_at(t0) && !v.busy_at(a, t0) && v.out.outcome.cap_phase == 0 {
                 crate::log::probe("c05_prompt_termination_checked");
                 let t0_vt = v.vtime_at(t0);
-                if a.dead.is_none() || a.dead_vt > t0_vt {
-                    out.push(violation(P, "lingered-after-last-drop", "", format!("actor {aidx}: idle when its last strong handle went away at seq {t0} (t={t0_vt}), but it only terminated at t={} (dead {:?}): something other than a strong handle kept it alive", a.dead_vt, a.dead)));
+                // (termination begins when stopped() is entered; stopped() itself may take time)
+                let term_vt = v.cbs_of(a).filter(|c| c.cb == Cb::Stopped && c.enter > t0).map(|c| c.enter_vt).next().or(a.dead.map(|_| a.dead_vt));
+                if term_vt.is_none_or(|t| t > t0_vt) {
+                    out.push(violation(P, "lingered-after-last-drop", "", format!("actor {aidx}: idle when its last strong handle went away at seq {t0} (t={t0_vt}), but it only began to terminate at t={term_vt:?} (dead {:?}): something other than a strong handle kept it alive", a.dead)));
                 }
             }
             // join after the last drop yields the value
